@@ -23,7 +23,7 @@ from .common import lst, blit, natlit, zlit
 P = 1000003
 HEADER = """From Coq Require Import List ZArith Bool.
 Import ListNotations.
-From LV Require Import Graph.Graph Graph.CorrC01.
+From LV Require Import Graph.Graph Graph.GraphX Graph.CorrC01 Graph.CorrC01X.
 Open Scope Z_scope.
 """
 
@@ -103,6 +103,8 @@ def gen_spec(rnd: random.Random, nitems: int, flavour: str = "mixed", per_obs: b
                 j = n - 1 - min(int(rnd.expovariate(0.45)), n - 1) if rnd.random() < 0.75 else rnd.randrange(n)
                 it = items[j]
                 if it["k"] == "group" and not allow_group:
+                    continue
+                if it.get("vec") and not allow_group:     # vector-valued log-probs are not forwarded either
                     continue
                 if it["k"] == "var" and rnd.random() < 0.12:
                     refs.append([j, "vn"])
@@ -290,6 +292,10 @@ class Real:
     # canonical integer for the ArgGroup an InputGroup forwards
     def _canon_group(self, x, it):
         vals = list(x.args) + [x.kwargs[n] for n in it["kwn"]]
+        items = self.spec["items"]
+        for j, ref in enumerate(list(it["ins"]) + list(it["kw"])):
+            if not isinstance(ref, list) and items[ref]["k"] in ("dist", "tdist"):
+                vals[j] = canon_lp(vals[j], items[ref])
         return apply_fs(it["fs"], vals)
 
     def _extract(self, order, order_seed):
@@ -412,6 +418,14 @@ class Real:
                 snaps.append(m.state)
             elif op[0] == "restore":
                 m.state = snaps[op[1]]
+            elif op[0] == "restore_edited":
+                # the public state setter with a saved state of this model in which some nodes were
+                # additionally marked outdated (values untouched)
+                st = dict(snaps[op[1]])
+                for k in op[2]:
+                    name = self.order[k]
+                    st[name] = st[name]._replace(outdated=True)
+                m.state = st
             else:
                 raise ValueError(op)
         except Exception:      # AttributeError / RuntimeError / KeyError today; any exception counts as 'raised'
@@ -538,9 +552,19 @@ def check_history(pg: PG, init_obs, steps, ops):
             snaps.append((list(vals), list(flags), list(touched)))
             if nvals != vals or nflags != flags or called:
                 return (si, f"{where}: reading the state changed the model")
-        elif op[0] == "restore":
+        elif op[0] in ("restore", "restore_edited"):
             svals, sflags, stouched = snaps[op[1]]
             touched = list(stouched)
+            if op[0] == "restore_edited":
+                # stored flag of a cached node = saved or marked; reported flags of transient nodes follow
+                sflags = list(sflags)
+                for k in range(n):
+                    if pg.kinds[k] == "C":
+                        sflags[k] = sflags[k] or k in op[2]
+                    elif pg.kinds[k] == "T":
+                        sflags[k] = any(sflags[i] for i in pg.ins[k])
+                for k in op[2]:
+                    touched[k] = True
             if called:
                 return (si, f"{where}: restoring a state evaluated nodes {called}")
             for k in range(n):
@@ -555,8 +579,11 @@ def check_history(pg: PG, init_obs, steps, ops):
 # ---------------------------------------------------------------------------------------------
 # operation histories
 # ---------------------------------------------------------------------------------------------
-def gen_ops(rnd: random.Random, pg: PG, nops: int, scenario: str):
+def gen_ops(rnd: random.Random, pg: PG, nops: int, scenario: str, edited: bool = False):
+    """edited=True adds the operation ["restore_edited", k, marks] (state setter on an edited snapshot);
+    other checks reuse this generator with the default"""
     n = pg.n
+    C = [k for k in range(n) if pg.kinds[k] == "C"]
     V = [k for k in range(n) if pg.kinds[k] == "V"]
     Vd = [k for k in V if pg.desc[k]] or V
     nonV = [k for k in range(n) if pg.kinds[k] != "V"]
@@ -626,7 +653,9 @@ def gen_ops(rnd: random.Random, pg: PG, nops: int, scenario: str):
             if r < 0.4 and nonV:
                 out.append(["assign", rnd.choice(nonV), val(), rnd.choice(["node", "var"])])
             elif r < 0.8:
-                out.append(["update", targets() + [n + rnd.randint(0, 3)]])
+                # the unknown name comes first: whether the known names before it are processed is not
+                # part of the property (the code as found resolves all names before it updates anything)
+                out.append(["update", [n + rnd.randint(0, 3)] + targets()])
             else:
                 out.append(["auto", False])
                 out.append(assign())
@@ -636,6 +665,51 @@ def gen_ops(rnd: random.Random, pg: PG, nops: int, scenario: str):
             nsnap += 1
             out.append(assign())
             out.append(["restore", nsnap - 1])
+        elif name == "edited_dirty_parent":
+            # a clean state is saved and restored with a cached node p marked outdated while a cached
+            # descendant c stays clean; then an ancestor of p is assigned (auto-update off) and c, something
+            # below it, or everything is updated
+            trip = [(gp, p_, c) for p_ in C for c in C if c in pg.desc[p_]
+                    for gp in V if p_ in pg.desc[gp]]
+            out.append(["update", []])
+            out.append(["save"])
+            nsnap += 1
+            if trip:
+                gp, p_, c = rnd.choice(trip)
+                marks = [p_] + ([rnd.choice(C)] if rnd.random() < 0.25 else [])
+                marks = [k for k in dict.fromkeys(marks) if k != c]
+                out.append(["restore_edited", nsnap - 1, marks])
+                out.append(["auto", False])
+                out.append(assign(gp))
+                r = rnd.random()
+                below = sorted(pg.desc[c])
+                if r < 0.4:
+                    out.append(["update", [c]])
+                elif r < 0.6 and below:
+                    out.append(["update", [rnd.choice(below)]])
+                elif r < 0.8:
+                    out.append(["update", []])
+                else:
+                    out.append(["auto", True])
+                    out.append(assign())
+            else:
+                out.append(["restore_edited", nsnap - 1, [rnd.randrange(n)]])
+                out.append(["update", []] if rnd.random() < 0.5 else ["update", targets()])
+        elif name == "edited_random":
+            if not nsnap:
+                out.append(["save"])
+                nsnap += 1
+            marks = [rnd.choice(C) if C and rnd.random() < 0.8 else rnd.randrange(n)
+                     for _ in range(rnd.choice([0, 1, 1, 2, 3]))]
+            out.append(["restore_edited", rnd.randrange(nsnap), marks])
+            r = rnd.random()
+            if r < 0.3:
+                out.append(["update", targets()])
+            elif r < 0.5:
+                out.append(["save"])
+                nsnap += 1
+            elif r < 0.8:
+                out.append(assign())
         return out
 
     if scenario != "random":
@@ -660,12 +734,13 @@ def gen_ops(rnd: random.Random, pg: PG, nops: int, scenario: str):
             ops.append(["restore", rnd.randrange(nsnap)])
         else:
             ops += scen(rnd.choice(["auto_off_targeted", "dirty_snapshot", "toggle_join", "transient_target",
-                                    "errors", "nothing_dirty", "clean_snapshot"]))
+                                    "errors", "nothing_dirty", "clean_snapshot"]
+                                   + (["edited_dirty_parent", "edited_random", "edited_random"] if edited else [])))
     return ops
 
 
 SCENARIOS = ["auto_off_targeted", "dirty_snapshot", "toggle_join", "nothing_dirty", "transient_target",
-             "errors", "clean_snapshot", "random"]
+             "errors", "clean_snapshot", "random", "edited_dirty_parent", "edited_random"]
 
 
 def run_history(spec, ops, order=None, order_seed=0):
@@ -700,7 +775,7 @@ def make_case(rnd, quick, scenario, flavour, size=None, require=None):
         nitems = size or (rnd.randint(2, 7) if quick else rnd.choice([rnd.randint(2, 8), rnd.randint(6, 16)]))
         if require and _try > 0:
             nitems = max(nitems, 5)
-        spec = gen_spec(rnd, nitems, "transient" if require and _try > 3 else flavour)
+        spec = gen_spec(rnd, nitems, "transient" if require and _try > 3 else flavour, per_obs=True)
         oseed = rnd.randrange(2 ** 30)
         try:
             real = Real(spec, None, oseed)
@@ -719,7 +794,7 @@ def make_case(rnd, quick, scenario, flavour, size=None, require=None):
         if require and require not in features(pg) and _try < 199:
             continue
         nops = rnd.randint(1, 25)
-        ops = gen_ops(rnd, pg, nops, scenario)
+        ops = gen_ops(rnd, pg, nops, scenario, edited=True)
         case = run_history(spec, ops, real.order)
         case["scenario"] = scenario
         case["flavour"] = flavour
@@ -748,6 +823,25 @@ CORPUS = [
                         {"k": "calc", "ins": [2], "kw": [], "kwn": [], "fs": ["aff", 9, [2]]}]},
      "ops_by_name": [["auto", False], ["assign", "v0_value", 8, "var"], ["save"], ["update", []],
                      ["restore", 0], ["update", []], ["restore", 0], ["update", ["n2"]]]},
+    # x -> A -> B -> C: snapshot restored with A marked outdated (B, C clean), x assigned, update   (seeded C01-4)
+    {"spec": {"items": [{"k": "value", "v": 1, "data": False},
+                        {"k": "calc", "ins": [0], "kw": [], "kwn": [], "fs": ["aff", 3, [2]]},
+                        {"k": "tcalc", "ins": [1], "kw": [], "kwn": [], "fs": ["aff", 1, [3]]},
+                        {"k": "calc", "ins": [2], "kw": [], "kwn": [], "fs": ["aff", 5, [3]]},
+                        {"k": "calc", "ins": [3, 1], "kw": [], "kwn": [], "fs": ["aff", 7, [4, 5]]}]},
+     "ops_by_name": [["save"], ["restore_edited", 0, ["n1"]], ["auto", False], ["assign", "n0", 10, "node"],
+                     ["update", ["n3"]], ["update", []], ["restore_edited", 0, ["n3", "n2"]], ["update", ["n4"]]]},
+    # distribution nodes with per_obs=False and a vector-valued log_prob (the summed branch)   (seeded C01-5)
+    {"spec": {"items": [{"k": "value", "v": 2, "data": False},
+                        {"k": "var", "weak": False, "role": "par", "v": 3,
+                         "dist": {"ins": [0], "kw": [], "kwn": [], "fs": ["aff", 4, [3, 5]], "transient": False,
+                                  "per_obs": False, "vec": True, "split": 4}},
+                        {"k": "dist", "ins": [1], "kw": [], "kwn": [], "at": None, "atv": 6, "fs": ["aff", 2, [3, 2]],
+                         "per_obs": True, "vec": True, "split": 3},
+                        {"k": "tdist", "ins": [0], "kw": [], "kwn": [], "at": 1, "atv": 0, "fs": ["aff", 9, [2, 7]],
+                         "per_obs": False, "vec": True, "split": 5}]},
+     "ops_by_name": [["update", []], ["update", ["v1_log_prob"]], ["assign", "n0", 5, "node"], ["auto", False],
+                     ["assign", "v1_value", 8, "var"], ["update", ["_model_log_prob"]], ["update", []]]},
 ]
 
 
@@ -761,6 +855,8 @@ def corpus_cases():
                 ops.append(["assign", real.pos[op[1]], op[2], op[3]])
             elif op[0] == "update":
                 ops.append(["update", [real.pos[t] for t in op[1]]])
+            elif op[0] == "restore_edited":
+                ops.append(["restore_edited", op[1], [real.pos[t] for t in op[2]]])
             else:
                 ops.append(list(op))
         case = run_history(c["spec"], ops, real.order)
@@ -798,6 +894,15 @@ def generate(ctx):
         ctx.hist("nodes." + ("<=8" if n <= 8 else "9-13" if n <= 13 else "14-24" if n <= 24 else ">=25"))
         for f in features(pg):
             ctx.hist("graph." + f)
+        for it in c["spec"]["items"]:
+            d = it if it["k"] in ("dist", "tdist") else it.get("dist")
+            if d:
+                ctx.hist("dist." + ("transient." if (it["k"] == "tdist" or d.get("transient")) else "cached.")
+                         + ("per_obs" if d.get("per_obs", True) else "summed") + (".vector" if d.get("vec") else ".scalar"))
+        if any(op[0] == "restore_edited" and any(
+                pg.kinds[m] == "C" and any(pg.kinds[d] == "C" and not c["steps"][si]["flags"][d] for d in pg.desc[m])
+                for m in op[2]) for si, op in enumerate(c["ops"]) if not c["steps"][si]["err"]):
+            ctx.hist("edited.dirty_parent_with_clean_cached_descendant")
         for op, st in zip(c["ops"], c["steps"]):
             nops += 1
             key = "op." + op[0] + ("" if op[0] != "update" else (".full" if not op[1] else ".targeted"))
@@ -822,7 +927,9 @@ def generate(ctx):
         "wf g: the list of nodes is in a topological order of the node graph and Value nodes have no inputs (checked per case by wfb)",
         "node functions are deterministic functions of their argument values (interp is an arbitrary function in the theorems)",
         "operations are the public ones: value assignment, auto_update toggle, update(*names), state save/restore of states "
-        "obtained from the same model; direct Node.update()/flag_outdated() calls and hand-built NodeState dicts are outside",
+        "obtained from the same model, and the state setter on such a state in which nodes were additionally marked outdated "
+        "(values untouched); direct Node.update()/flag_outdated() calls, clean flags on stale values and other hand-built "
+        "NodeState dicts are outside",
     ]
     # shrink the first failing histories so that the replay is small
     nshr = 0
@@ -869,7 +976,7 @@ def shrink(c):
         for op in ops:
             if op[0] == "save":
                 ns += 1
-            if op[0] == "restore" and op[1] >= ns:
+            if op[0] in ("restore", "restore_edited") and op[1] >= ns:
                 return None
         cc = run_history(c["spec"], ops, c["order"])
         return oracle(cc)
@@ -883,17 +990,24 @@ def shrink(c):
         # removing a save shifts later restores
         if ops[i][0] == "save":
             idx = sum(1 for o in ops[:i] if o[0] == "save")
-            cand = [(["restore", o[1] - 1] if o[0] == "restore" and o[1] > idx else o) for o in cand
-                    if not (o[0] == "restore" and o[1] == idx)]
+            RS = ("restore", "restore_edited")
+            cand = [([o[0], o[1] - 1] + list(o[2:]) if o[0] in RS and o[1] > idx else o) for o in cand
+                    if not (o[0] in RS and o[1] == idx)]
         w = fails(cand) if cand else None
         if w:
             ops, why = cand, w
         else:
             i += 1
-    return {"spec": c["spec"], "order": c["order"], "ops": ops, "why": why,
-            "ops_by_name": [[o[0], (c["order"][o[1]] if o[0] == "assign" else
-                                   [c["order"][t] if t < len(c["order"]) else "?" for t in o[1]] if o[0] == "update" else o[1] if len(o) > 1 else None)]
-                            + list(o[2:]) for o in ops]}
+    def byname(o):
+        nm = lambda t: c["order"][t] if t < len(c["order"]) else "?"
+        if o[0] == "assign":
+            return [o[0], nm(o[1])] + list(o[2:])
+        if o[0] == "update":
+            return [o[0], [nm(t) for t in o[1]]]
+        if o[0] == "restore_edited":
+            return [o[0], o[1], [nm(t) for t in o[2]]]
+        return list(o)
+    return {"spec": c["spec"], "order": c["order"], "ops": ops, "why": why, "ops_by_name": [byname(o) for o in ops]}
 
 
 def node_lit(kind, ins, fs):
@@ -917,6 +1031,12 @@ def op_lit(op):
     return f"(Restore {natlit(op[1])})"
 
 
+def xop_lit(op):
+    if op[0] == "restore_edited":
+        return f"(XRestoreEdited {natlit(op[1])} {lst(natlit(t) for t in op[2])})"
+    return f"(XBase {op_lit(op)})"
+
+
 def obs_lit(vals, flags, called, err):
     return (f"(mkObs {lst(zlit(v) for v in vals)} {lst(blit(b) for b in flags)} "
             f"{lst(natlit(k) for k in sorted(called))} {blit(err)})")
@@ -924,10 +1044,10 @@ def obs_lit(vals, flags, called, err):
 
 def case_lit(c):
     g = lst(node_lit(k, i, f) for k, i, f in zip(c["kinds"], c["ins"], c["fs"]))
-    steps = lst(f"({op_lit(op)}, {obs_lit(st['vals'], st['flags'], st['called'], st['err'])})"
+    steps = lst(f"({xop_lit(op)}, {obs_lit(st['vals'], st['flags'], st['called'], st['err'])})"
                 for op, st in zip(c["ops"], c["steps"]))
     outs = lst(lst(natlit(j) for j in o) for o in c["outs"])
-    return (f"(mkCase {g}\n   {lst(zlit(v) for v in c['ext0'])}\n   {outs}\n   {lst(blit(b) for b in c['counted'])}\n   "
+    return (f"(mkXCase {g}\n   {lst(zlit(v) for v in c['ext0'])}\n   {outs}\n   {lst(blit(b) for b in c['counted'])}\n   "
             f"{obs_lit(c['init']['vals'], c['init']['flags'], [], False)}\n   {steps})")
 
 
@@ -939,14 +1059,14 @@ def emit(ctx, cases):
         idxs = good[k:k + per]
         defs = []
         for j, i in enumerate(idxs):
-            defs.append(f"Definition c{j} : c01case :=\n  {case_lit(cases[i])}.")
+            defs.append(f"Definition c{j} : c01xcase :=\n  {case_lit(cases[i])}.")
         small = [j for j, i in enumerate(idxs) if len(cases[i]["kinds"]) <= LIT_MAX_NODES]
         txt = HEADER + "\n".join(defs) + f"""
-Definition cases : list c01case := {lst(f'c{j}' for j in range(len(idxs)))}.
-Definition small_cases : list c01case := {lst(f'c{j}' for j in small)}.
-Lemma shard_ok : forallb agrees cases = true.
+Definition cases : list c01xcase := {lst(f'c{j}' for j in range(len(idxs)))}.
+Definition small_cases : list c01xcase := {lst(f'c{j}' for j in small)}.
+Lemma shard_ok : forallb agrees_x cases = true.
 Proof. vm_compute. reflexivity. Qed.
-Lemma shard_lit_ok : forallb agrees_lit small_cases = true.
+Lemma shard_lit_ok : forallb agrees_lit_x small_cases = true.
 Proof. vm_compute. reflexivity. Qed.
 """
         shards.append((ctx.new_shard(txt), idxs))
@@ -955,7 +1075,7 @@ Proof. vm_compute. reflexivity. Qed.
 
 def diagnose(ctx, path, idxs, cases):
     txt = open(path).read().split("Lemma shard_ok")[0]
-    txt += "Eval vm_compute in (map verdict cases).\n"
+    txt += "Eval vm_compute in (map verdict_x cases).\n"
     ok, out = ctx.coq_eval(txt)
     vs = common.parse_nat_list(out)
     bad = []
@@ -969,7 +1089,7 @@ def diagnose(ctx, path, idxs, cases):
     if not bad:
         # shard_ok holds, the literal-reader cross-check failed
         txt = open(path).read().split("Lemma shard_ok")[0]
-        txt += "Eval vm_compute in (failing agrees_lit small_cases).\n"
+        txt += "Eval vm_compute in (failing agrees_lit_x small_cases).\n"
         ok, out = ctx.coq_eval(txt.replace("From LV Require Import", "From LV Require Import Base.ListAux"))
         common.log("agrees_lit failing (indices into small_cases):", common.parse_nat_list(out))
     return bad
@@ -991,7 +1111,7 @@ def search(ctx, disagreeing):
         real = Real(c["spec"], c["order"])
         pg = PG(real.kinds, real.ins, real.fs)
         for _ in range(40):
-            ops = gen_ops(rnd, pg, rnd.randint(3, 25), rnd.choice(SCENARIOS))
+            ops = gen_ops(rnd, pg, rnd.randint(3, 25), rnd.choice(SCENARIOS), edited=True)
             cc = run_history(c["spec"], ops, c["order"])
             r = oracle(cc)
             if r:
